@@ -64,7 +64,9 @@ class PermutingExperimenter(experimenter.Experimenter):
             ' Permuting continuous parameters is not supported.'
         )
 
-      permutation_list = self._rng.permuted(parameter.feasible_values)
+      # `tolist()` turns the numpy scalars into the Python int/float/str that
+      # `ParameterValue` accepts (np.int64 is not an `int`).
+      permutation_list = self._rng.permuted(parameter.feasible_values).tolist()
       permutation_dict = {
           a: b for a, b in zip(parameter.feasible_values, permutation_list)
       }
